@@ -122,6 +122,60 @@ Example C02_must_revalidate_stale_is_revalidated :
   needs_validation (view_of e) q (946684810 * second) = true.
 Proof. split; vm_compute; reflexivity. Qed.
 
+(* ---------- qualified no-cache: the named fields are not replayed without validation ---------- *)
+From HC.Proofs Require Import HeaderProofs SrcProofs.
+
+(* removing a list of fields removes each of them, whatever else is removed *)
+Lemma strip_removes n fields : forall h, In n fields -> hvalues (canonical_key n) (fold_left (fun acc fld => hdel fld acc) fields h) = [].
+Proof.
+  assert (Hkeep : forall fs h, hvalues (canonical_key n) h = [] ->
+            hvalues (canonical_key n) (fold_left (fun acc fld => hdel fld acc) fs h) = []).
+  { induction fs as [|x fs IH]; intros h H; cbn [fold_left]; [exact H|]. apply IH.
+    destruct (beq (canonical_key n) (canonical_key x)) eqn:E.
+    - apply beq_eq in E. rewrite E. apply hvalues_hdel_same.
+    - rewrite hvalues_hdel_other by exact E. exact H. }
+  induction fields as [|x fs IH]; intros h Hin; [destruct Hin|]. cbn [fold_left].
+  destruct Hin as [->|Hin]; [apply Hkeep, hvalues_hdel_same|apply IH, Hin].
+Qed.
+
+(* For every stored entry whose no-cache carries a field list, every field n of the list other than the cache's own Age
+   and status fields (which it writes afterwards), every freshness record and clock reading: the response handed out
+   by serveFromCache, by the stale-while-revalidate path and by the stale-if-error path — the three ways a stored
+   response leaves the cache without a successful validation — has no field n. *)
+Theorem C02_qualified_not_replayed : forall e f now fields n r,
+  hit_qualified e = Some fields -> In n fields ->
+  beq (canonical_key n) (bs "Age") = false -> beq (canonical_key n) status_header = false ->
+  beq (canonical_key n) from_cache_header = false ->
+  serve_from_cache e f now (hit_qualified e) = OResp r \/
+  (exists q k cc bg, handle_stale_while_revalidate q e k f cc now (hit_qualified e) = Spawn bg (Ret (OResp r))) \/
+  stale_if_error_outcome e f now = OResp r ->
+  hvalues (canonical_key n) (p_hdr r) = [].
+Proof.
+  intros e f now fields n r Hq Hin Ha Hs Hf H.
+  assert (Hgone : forall st v, hvalues (canonical_key n) (apply_status st (hset (bs "Age") v (strip_qualified (hit_qualified e) (e_hdr e)))) = []).
+  { intros st v. unfold apply_status. rewrite Hq. cbn [strip_qualified].
+    destruct (status_legacy st); [rewrite hvalues_hset_other by exact Hf|rewrite hvalues_hdel_other by exact Hf];
+      rewrite hvalues_hset_other by exact Hs; rewrite hvalues_hset_other by exact Ha; apply strip_removes, Hin. }
+  destruct H as [H|[(q & k & cc & bg & H)|H]].
+  - unfold serve_from_cache in H. injection H as <-. cbn [p_hdr response_of entry_with_hdr e_hdr]. apply Hgone.
+  - unfold handle_stale_while_revalidate in H. injection H as _ <-. cbn [p_hdr response_of entry_with_hdr e_hdr]. apply Hgone.
+  - unfold stale_if_error_outcome in H. injection H as <-. cbn [p_hdr response_of entry_with_hdr e_hdr]. apply Hgone.
+Qed.
+Print Assumptions C02_qualified_not_replayed.
+
+(* non-vacuity: a field list in any case with optional whitespace; the named field is gone from a hit *)
+Example C02_qualified_example :
+  let e := {| e_id := bs "k#0"; e_status := 200;
+              e_hdr := [(bs "Cache-Control", [bs "max-age=60, no-cache=""Set-Cookie , x-secret"""]); (bs "Date", [bs "Sat, 01 Jan 2000 00:00:00 GMT"]);
+                        (bs "X-Secret", [bs "s"]); (bs "Set-Cookie", [bs "a=1"])];
+              e_body := 0; e_req_at := 946684800 * second; e_recv_at := 946684800 * second |} in
+  hit_qualified e = Some [bs "Set-Cookie"; bs "x-secret"] /\
+  match serve_from_cache e (calculate_freshness e [] (parse_cc (e_hdr e)) (946684810 * second)) (946684810 * second) (hit_qualified e) with
+  | OResp r => hvalues (bs "X-Secret") (p_hdr r) = [] /\ hvalues (bs "Set-Cookie") (p_hdr r) = [] /\ hvalues (bs "Date") (p_hdr r) <> []
+  | _ => False
+  end.
+Proof. vm_compute. repeat split; try reflexivity. discriminate. Qed.
+
 (* ---------- history level ---------- *)
 From HC.Proofs Require Import ProvProofs TimeProofs SrcProofs.
 
